@@ -67,3 +67,4 @@ def x_gather(report):
 
 
 EXTRACTORS = [("gather", x_gather)]
+SERVES = ["C07", "C08"]
